@@ -186,7 +186,10 @@ HOSTILE = ["sub", ".", "nosuchfile.conf", "package:nosuchpkg9:x",
            "a\x00b", "a b.conf", "#frag", "b.conf#frag", "mailto:x",
            "http://127.0.0.1:1/x", "file://remotehost/x", "c:", "a:b.conf",
            "file:b.conf", "http:///x", "//host/x", "\\\\host\\x", "?q",
-           "%41.conf", "b.conf?x=1"]
+           "%41.conf", "b.conf?x=1", "http://127.0.0.1:abc/x",
+           "http://127.0.0.1:99999/x", "latin1.conf", "binary.conf",
+           "utf16.conf", "http://[::1]:x/", "ftp://127.0.0.1:1/x",
+           "file:///dev/null", "data:,k%20v"]
 
 
 def include_case(rng, root):
@@ -219,6 +222,13 @@ def do_include(ctx, schema, rng, dirpath, files=None):
     for n, t in files.items():
         with open(os.path.join(dirpath, n), "w") as f:
             f.write(t)
+    # resources that are not UTF-8 text
+    with open(os.path.join(dirpath, "latin1.conf"), "wb") as f:
+        f.write("k caf\xe9\n".encode("latin-1"))
+    with open(os.path.join(dirpath, "binary.conf"), "wb") as f:
+        f.write(bytes(range(256)))
+    with open(os.path.join(dirpath, "utf16.conf"), "wb") as f:
+        f.write("k v\n".encode("utf-16"))
     ctx.res.evaluations += 1
     cls, e = run_entry(lambda: ZConfig.loadConfig(
         schema, os.path.join(dirpath, "a.conf")))
